@@ -71,6 +71,16 @@ func sharedSchema() *jsonapi.Schema {
 	// a type declared the short way: AddType(Type{Name}) then AddAttr leaves its Rels map nil
 	must(s.AddType(jsonapi.Type{Name: "t4"}))
 	must(s.AddAttr("t4", jsonapi.Attr{Name: "d", Type: jsonapi.AttrTypeString}))
+	// a struct-backed type that has nothing but its ID
+	typ7, err := jsonapi.BuildType(reflect.New(structType("t7", defMap{}, kindMap{})).Interface())
+	must(err)
+	must(s.AddType(typ7))
+	// a pair that does not point back properly (t9.y names another inverse): the integrity
+	// check has something to report, on the shared schema as well
+	must(s.AddType(jsonapi.Type{Name: "t8", Rels: map[string]jsonapi.Rel{
+		"x": {FromType: "t8", FromName: "x", ToOne: true, ToType: "t9", ToName: "y"}}}))
+	must(s.AddType(jsonapi.Type{Name: "t9", Rels: map[string]jsonapi.Rel{
+		"y": {FromType: "t9", FromName: "y", ToOne: true, ToType: "t8", ToName: "other"}}}))
 	return s
 }
 
@@ -82,7 +92,19 @@ func schemaSnapshot(s *jsonapi.Schema) map[string]string {
 	var rec, am, rm []string
 	for i := range s.Types {
 		t := &s.Types[i]
-		rec = append(rec, fmt.Sprintf("%s/%x", t.Name, reflect.ValueOf(t.NewFunc).Pointer()))
+		// what the type creates is part of the type: a fresh resource, by its readable content
+		fresh := ""
+		if t.NewFunc != nil {
+			r := t.New()
+			fresh = fmt.Sprintf("id=%q", r.Get("id"))
+			for _, f := range sortedKeys(r.Attrs()) {
+				fresh += fmt.Sprintf(",%s=%#v", f, derefAny(r.Get(f)))
+			}
+			for _, f := range sortedKeys(r.Rels()) {
+				fresh += fmt.Sprintf(",%s=%#v", f, r.Get(f))
+			}
+		}
+		rec = append(rec, fmt.Sprintf("%s/%x/%s", t.Name, reflect.ValueOf(t.NewFunc).Pointer(), fresh))
 		am = append(am, fmt.Sprintf("%x:%v", reflect.ValueOf(t.Attrs).Pointer(), sortedMapString(t.Attrs)))
 		rm = append(rm, fmt.Sprintf("%x:%v", reflect.ValueOf(t.Rels).Pointer(), sortedMapString(t.Rels)))
 	}
@@ -111,6 +133,18 @@ func schemaSnapshot(s *jsonapi.Schema) map[string]string {
 	}
 	out["RelsCache"] = strings.Join(cache, ";")
 	return out
+}
+
+// derefAny: the value behind a pointer (the address itself differs from one resource to the next)
+func derefAny(v any) any {
+	rv := reflect.ValueOf(v)
+	if rv.IsValid() && rv.Kind() == reflect.Ptr {
+		if rv.IsNil() {
+			return nil
+		}
+		return rv.Elem().Interface()
+	}
+	return v
 }
 
 func sortedMapString(m any) string {
@@ -150,7 +184,7 @@ func sharedOp(s *jsonapi.Schema, op string, p int) {
 		must(err)
 		_ = r4.Get("d")
 	case "NewResource":
-		for _, name := range []string{"t1", "t2", "t3", "t4", "t5"} {
+		for _, name := range []string{"t1", "t2", "t3", "t4", "t5", "t7"} {
 			typ := s.GetType(name)
 			r := typ.New()
 			r.Set("id", id)
@@ -188,8 +222,8 @@ func sharedOp(s *jsonapi.Schema, op string, p int) {
 			panic("HasType")
 		}
 	case "Check":
-		if len(s.Check()) != 0 {
-			panic("schema is not coherent")
+		if len(s.Check()) == 0 {
+			panic("the pair t8/t9 is not reported")
 		}
 	case "Rels":
 		if len(s.Rels()) == 0 {
